@@ -729,7 +729,7 @@ theorem lfs_loop2 (h : Bytes → Nat) (vv : List V) (L : List Bytes → Int → 
       · rw [h4]
 
 /-- errors of the loaders, by their text -/
-def errOf (e : SErr) : Out SMap.LErr (SMap.StrMap V) :=
+def errOf {σ : Type} (e : SErr) : Out SMap.LErr σ :=
   match e with
   | .nil => .panic "nil error"
   | .new t => if t = SMap.LErr.kvLen.msg then .err .kvLen
@@ -835,6 +835,7 @@ theorem appendLoop_len (h : Bytes → Nat) : ∀ (l : List (Bytes × V)) (off : 
   | nil => intro off; simp [SMap.appendLoop]
   | cons x r ih => intro off; simp [SMap.appendLoop, ih]
 
+set_option linter.unusedSimpArgs false in
 /-- `LoadFromSlice` is the model's `loadFromSlice` — both error returns and the success path — for EVERY receiver state,
     every hash, every sorter, provided the keys are shorter than 2^62 bytes in total and the fuel exceeds the number of
     slots -/
@@ -854,8 +855,9 @@ theorem LoadFromSlice_eq (zV : V) (h : Bytes → Nat) (sorter : List (SMap.Item 
     have hvv : llen vv = ((vv.length : Nat) : Int) := rfl
     have hs1 : ∀ {β : Type} (d : Sl β), sslice d 0 0 = .ok ⟨[], d.mem⟩ := by
       intro β d
-      have : ¬ ((0 : Int) < 0 ∨ (0 : Int) > scap d) := by unfold scap; omega
-      simp [sslice, this]
+      simp only [sslice]
+      rw [if_neg (by unfold scap; omega), if_neg (by omega)]
+      simp
     have hmk : ∀ {β : Type} (z : β) (n : Nat), smake z 0 (n : Int) = .ok ⟨[], List.replicate n z⟩ := by
       intro β z n
       have : ¬ ((n : Int) < 0) := by omega
@@ -879,7 +881,7 @@ theorem LoadFromSlice_eq (zV : V) (h : Bytes → Nat) (sorter : List (SMap.Item 
       simp [StrMap_LoadFromSlice_loop1, this]
     · -- the three `[:0]` resets, then the two capacity tests: in all four cases data and items are empty
       simp only [Out.bind_ok, hs1, hvv, Out.bind_eq, Out.pure_eq]
-      split <;> split <;>
+      split <;> simp only [hmk, Out.bind_ok, Out.pure_eq] <;> split <;>
       ( simp only [hmk, Out.bind_ok, Out.pure_eq]
         refine absLoad_bind_ex (lfs_loop2 h vv _ ?_ ?_ kk [] vv 0 _ rfl rfl hlen) ?_
         · intro i m; simp [StrMap_LoadFromSlice_loop2]
@@ -896,6 +898,609 @@ theorem LoadFromSlice_eq (zV : V) (h : Bytes → Nat) (sorter : List (SMap.Item 
             simp [absMap, q1, q2, q3, Sl.mem, Function.comp_def]
           rw [← habs, ← hmh]
           exact absLoad_ret _ )
+
+/-! ## internal/strstore: Get, Len -/
+
+def absStore (s : S_StrStore) : SMap.StrStore := ⟨s.buf.arr⟩
+
+theorem StrStore_Len_eq (s : S_StrStore) : StrStore_Len s = .ok ((absStore s).buf.length : Int) := by
+  simp [StrStore_Len, absStore, slen]
+
+/-- the entry a (possibly bogus) index points at does not END in the spare capacity of `buf` (Go's slice expression is
+    legal up to the capacity and would return stale bytes there; the model checks against the length) -/
+def EntryOK (s : S_StrStore) (idx : Int) : Prop :=
+  ∀ n, uload32 s.buf idx = .ok n → idx + 4 + n ≤ slen s.buf ∨ scap s.buf < idx + 4 + n
+
+theorem drop4 (l : List UInt8) (i : Nat) (h : i + 4 ≤ l.length) :
+    ∃ a c d e r, l.drop i = a :: c :: d :: e :: r := by
+  have hl : (l.drop i).length = l.length - i := List.length_drop
+  match hd : l.drop i with
+  | a :: c :: d :: e :: r => exact ⟨a, c, d, e, r, rfl⟩
+  | [] => rw [hd] at hl; simp at hl; omega
+  | [_] => rw [hd] at hl; simp at hl; omega
+  | [_, _] => rw [hd] at hl; simp at hl; omega
+  | [_, _, _] => rw [hd] at hl; simp at hl; omega
+
+/-- `(*StrStore).Get` is the model's `storeGet` — "" outside the buffer, `oob` when the unsafe 4-byte load leaves the
+    buffer, the slice panic, the string — for every buffer below 2^62 bytes and every index whose entry is `EntryOK` -/
+theorem StrStore_Get_eq (s : S_StrStore) (idx : Int) (hcap : scap s.buf < 4611686018427387904) (hk : EntryOK s idx) :
+    liftG id (StrStore_Get s idx) = SMap.storeGet (absStore s) idx := by
+  have hlc : slen s.buf ≤ scap s.buf := by unfold slen scap; omega
+  unfold SMap.storeGet
+  have hbuf : (absStore s).buf = s.buf.arr := rfl
+  rw [hbuf]
+  by_cases h0 : idx < 0 ∨ idx ≥ (s.buf.arr.length : Int)
+  · have h0' : idx < 0 ∨ idx ≥ slen s.buf := h0
+    rcases h0' with c | c
+    · have c' : ¬ 0 ≤ idx := by omega
+      simp [StrStore_Get, h0, c, c', liftG]
+    · have c' : ¬ idx < slen s.buf := by omega
+      simp [StrStore_Get, h0, c, c', liftG]
+  · have hA : ¬ idx < 0 := by omega
+    have hB : ¬ idx ≥ slen s.buf := by unfold slen; omega
+    have hC : ¬ (idx < 0 ∨ idx ≥ slen s.buf) := by omega
+    have hA' : 0 ≤ idx := by omega
+    have hB' : idx < slen s.buf := by omega
+    simp only [h0, if_false, SMap.u32Size, Facts.strlenSize]
+    by_cases h4 : idx.toNat + 4 > s.buf.arr.length
+    · have h4' : idx + 4 > slen s.buf := by unfold slen; omega
+      have hu : uload32 s.buf idx = .oob := by simp [uload32, hC, h4']
+      simp [StrStore_Get, hA, hB, hA', hB', hu, h4, liftG]
+    · have h4' : ¬ idx + 4 > slen s.buf := by unfold slen; omega
+      obtain ⟨a, c, d, e, r, hd⟩ := drop4 s.buf.arr idx.toNat (by omega)
+      have hu : uload32 s.buf idx =
+          .ok ((a.toNat + c.toNat * 256 + d.toNat * 65536 + e.toNat * 16777216 : Nat) : Int) := by
+        simp [uload32, hC, h4', hd]
+      have hrd : SMap.rdle32 (s.buf.arr.drop idx.toNat) = a.toNat + c.toNat * 256 + d.toNat * 65536 + e.toNat * 16777216 := by
+        rw [hd]; rfl
+      have hkk := hk _ hu
+      generalize a.toNat + c.toNat * 256 + d.toNat * 65536 + e.toNat * 16777216 = n at hu hrd hkk
+      have hn : n < 4294967296 := by
+        have := a.toNat_lt; have := c.toNat_lt; have := d.toNat_lt; have := e.toNat_lt
+        rw [← hrd, hd]; simp only [SMap.rdle32]; omega
+      have hB2 : ¬ idx ≥ (s.buf.arr.length : Int) := hB
+      have h42 : ¬ idx + 4 > (s.buf.arr.length : Int) := h4'
+      unfold scap at hcap
+      unfold slen scap at hkk
+      have w1 : wrap .i64 (idx + 4) = idx + 4 := wrap64 _ (by omega) (by omega)
+      have w2 : wrap .i64 (n : Int) = (n : Int) := wrap64 _ (by omega) (by omega)
+      have w3 : wrap .i64 (idx + 4 + (n : Int)) = idx + 4 + (n : Int) := wrap64 _ (by omega) (by omega)
+      simp only [h4, if_false, hrd]
+      rcases hkk with hkk | hkk
+      · have c1 : ¬ (idx + 4 + (n : Int) < 0 ∨ idx + 4 + (n : Int) > scap s.buf) := by unfold scap; omega
+        have c2 : ¬ (idx + 4 < 0 ∨ idx + 4 > idx + 4 + (n : Int)) := by omega
+        have hm : ¬ idx.toNat + 4 + n > s.buf.arr.length := by omega
+        have hss : sslice s.buf (idx + 4) (idx + 4 + (n : Int)) =
+            .ok ⟨((s.buf.mem).take (idx + 4 + (n : Int)).toNat).drop (idx + 4).toNat, (s.buf.mem).drop (idx + 4 + (n : Int)).toNat⟩ := by
+          simp only [sslice, c1, c2, if_false]
+        have e1 : (idx + 4 + (n : Int)).toNat = idx.toNat + 4 + n := by omega
+        have e2 : (idx + 4).toNat = idx.toNat + 4 := by omega
+        have hres : StrStore_Get s idx =
+            .ok (((s.buf.mem).take (idx + 4 + (n : Int)).toNat).drop (idx + 4).toNat) := by
+          simp [StrStore_Get, hA, hB, hA', hB', hu, w1, w2, w3, hss, strOf]
+        rw [hres]
+        simp only [liftG, id, hm, if_false]
+        congr 1
+        have hm' : idx.toNat + 4 + n ≤ s.buf.arr.length := by omega
+        rw [e1, e2, Sl.mem, List.take_append_of_le_length hm', List.drop_take]
+        congr 1; omega
+      · have c1 : (idx + 4 + (n : Int) < 0 ∨ idx + 4 + (n : Int) > scap s.buf) := by unfold scap; omega
+        have hm : idx.toNat + 4 + n > s.buf.arr.length := by omega
+        have hss : sslice s.buf (idx + 4) (idx + 4 + (n : Int)) = .panic "slice" := by
+          simp only [sslice, c1, if_true]
+        simp [StrStore_Get, hA, hB, hA', hB', hu, w1, w2, w3, hss, liftG, hm]
+
+/-! ## internal/strstore: Load -/
+
+/-- bytes `Load` packs for these strings -/
+def packLen : List Bytes → Nat
+  | [] => 0
+  | x :: r => 4 + x.length + packLen r
+
+theorem packLoop_len : ∀ (l : List Bytes) (off : Nat), (SMap.packLoop l off).1.length = packLen l := by
+  intro l
+  induction l with
+  | nil => intro off; simp [SMap.packLoop, packLen]
+  | cons x r ih =>
+    intro off
+    simp [SMap.packLoop, packLen, ih, SMap.hdr, SMap.le32, Facts.strlenSize, SMap.u32Size]
+    omega
+
+theorem le32_eq (n : Nat) : GoSemSM.le32 (wrap .u32 (llen (α := UInt8) (List.replicate n 0))) = SMap.hdr (n % SMap.two32) := by
+  have : (toU 32 (wrap .u32 ((n : Nat) : Int))).toNat = n % 4294967296 := by
+    rw [wrapU32]; simp only [toU]; omega
+  simp [GoSemSM.le32, llen, SMap.hdr, SMap.le32, Facts.strlenSize, SMap.u32Size, this, SMap.two32]
+
+theorem le32_len (x : Bytes) : GoSemSM.le32 (wrap .u32 (llen x)) = SMap.hdr (x.length % SMap.two32) := by
+  have := le32_eq x.length
+  simpa [llen] using this
+
+theorem hdr_len (n : Nat) : (SMap.hdr n).length = 4 := by
+  simp [SMap.hdr, SMap.le32, Facts.strlenSize, SMap.u32Size]
+
+/-- the unsafe 4-byte store at the end of the packed prefix `P` -/
+theorem ustore_at (b : Sl UInt8) (P J : Bytes) (off : Int) (v : Int) (hb : b.arr = P ++ J) (ho : off = (P.length : Int))
+    (hJ : 4 ≤ J.length) : ustore32 b off v = .ok { b with arr := P ++ GoSemSM.le32 v ++ J.drop 4 } := by
+  subst ho
+  have c1 : ¬ (((P.length : Nat) : Int) < 0 ∨ ((P.length : Nat) : Int) ≥ slen b) := by unfold slen; rw [hb]; simp; omega
+  have c2 : ¬ (((P.length : Nat) : Int) + 4 > slen b) := by unfold slen; rw [hb]; simp; omega
+  simp only [ustore32, c1, c2, if_false, Int.toNat_natCast, hb]
+  congr 2
+  rw [List.take_left', List.drop_append]
+  · simp
+  · rfl
+
+/-- `copy(b[lo:hi], x)` right after the packed prefix `P` -/
+theorem copy_at (b : Sl UInt8) (P J x : Bytes) (lo hi : Int) (hb : b.arr = P ++ J) (hlo : lo = (P.length : Int))
+    (hhi : hi = ((P.length + x.length : Nat) : Int)) (hJ : x.length ≤ J.length) :
+    scopyInto b lo hi x = .ok { b with arr := P ++ x ++ J.drop x.length } := by
+  subst hlo hhi
+  have c1 : ¬ (((P.length + x.length : Nat) : Int) < 0 ∨ ((P.length + x.length : Nat) : Int) > scap b) := by
+    unfold scap; rw [hb]; simp; omega
+  have c2 : ¬ (((P.length : Nat) : Int) < 0 ∨ ((P.length : Nat) : Int) > ((P.length + x.length : Nat) : Int)) := by omega
+  have hmin : min (P.length + x.length - P.length) x.length = x.length := by omega
+  simp only [scopyInto, c1, c2, if_false, Int.toNat_natCast, hmin, Sl.mem, hb, List.take_length]
+  have e1 : List.take P.length (P ++ J ++ b.spare) = P := by
+    rw [List.append_assoc, List.take_left']; rfl
+  have e2 : List.drop (P.length + x.length) (P ++ J ++ b.spare) = J.drop x.length ++ b.spare := by
+    rw [← List.drop_drop, List.append_assoc, List.drop_left' rfl, List.drop_append_of_le_length hJ]
+  rw [e1, e2]
+  have hl' : (P ++ (x ++ J.drop x.length)).length = P.length + (x.length + (J.length - x.length)) := by simp
+  have ht := List.take_left' (l₁ := P ++ (x ++ J.drop x.length)) (l₂ := b.spare) hl'
+  have hd := List.drop_left' (l₁ := P ++ (x ++ J.drop x.length)) (l₂ := b.spare) hl'
+  have hlen : (P ++ J).length = P.length + (x.length + (J.length - x.length)) := by simp; omega
+  simp only [List.append_assoc] at ht hd ⊢
+  rw [hlen, ht, hd]
+
+theorem lget_append (pre rest : List α) (x : α) (l : List α) (i : Int) (hl : l = pre ++ x :: rest)
+    (hi : i = (pre.length : Int)) : lget l i = .ok x := by
+  subst hi hl
+  have : ¬ ((pre.length : Nat) : Int) < 0 := by omega
+  simp [lget, this]
+
+/-- first loop of `Load` (length check and total): for ANY function `L` with these steps -/
+theorem sl_loop1 (ss : List Bytes) (L : Nat → Int → Int → GM (Int × Int))
+    (hge : ∀ f t (i : Int), ¬ i < (ss.length : Int) → L (f + 1) t i = .ok (t, i))
+    (hbig : ∀ f t (i : Int) x, lget ss i = .ok x → x.length > SMap.maxU32 → L (f + 1) t i = .panic "string too long")
+    (hsmall : ∀ f t (i : Int) x, i < (ss.length : Int) → lget ss i = .ok x → ¬ x.length > SMap.maxU32 →
+      L (f + 1) t i = L f (wrap .i64 (t + llen x)) (wrap .i64 (i + 1))) :
+    ∀ (fuel : Nat) (rest pre : List Bytes) (t i : Int), ss = pre ++ rest → i = (pre.length : Int) → rest.length < fuel →
+      0 ≤ t → t + (totalLen rest : Int) < 4611686018427387904 → ss.length < 4611686018427387904 →
+      L fuel t i = if rest.any (fun x => decide (x.length > SMap.maxU32)) then .panic "string too long"
+                   else .ok (t + (totalLen rest : Int), (ss.length : Int)) := by
+  intro fuel
+  induction fuel with
+  | zero => intro rest pre t i _ _ hf; omega
+  | succ fuel ih =>
+    intro rest pre t i hs hi hf h0 hb hn
+    cases rest with
+    | nil =>
+      have : ¬ i < (ss.length : Int) := by rw [hs, hi]; simp
+      have e : (ss.length : Int) = i := by rw [hs, hi]; simp
+      simp [hge fuel t i this, totalLen, e]
+    | cons x rest =>
+      have hg := lget_append pre rest x ss i hs hi
+      have hlt : i < (ss.length : Int) := by rw [hs, hi]; simp; omega
+      simp only [totalLen] at hb
+      by_cases hx : x.length > SMap.maxU32
+      · simp [hbig fuel t i x hg hx, hx]
+      · have w1 : wrap .i64 (t + llen x) = t + (x.length : Int) := by unfold llen; exact wrap64 _ (by omega) (by omega)
+        have w2 : wrap .i64 (i + 1) = i + 1 := wrap64 _ (by omega) (by omega)
+        rw [hsmall fuel t i x hlt hg hx, w1, w2,
+          ih rest (pre ++ [x]) _ _ (by simp [hs]) (by simp [hi]) (by simp at hf; omega) (by omega) (by omega) hn]
+        simp only [List.any_cons, hx, decide_false, Bool.false_or, totalLen]
+        split <;> simp <;> omega
+
+/-- second loop of `Load` (the packing): for ANY function `L` that records the offset, stores the length, copies the
+    string and advances -/
+theorem sl_loop2 (ss : List Bytes) (L : Nat → S_StrStore → List Int → Int → Int → GM (S_StrStore × List Int × Int × Int))
+    (hge : ∀ f s ix off (i : Int), ¬ i < (ss.length : Int) → L (f + 1) s ix off i = .ok (s, ix, off, i))
+    (hlt : ∀ f s ix (off i : Int) x, 0 ≤ i → i < (ss.length : Int) → ss.length < 4611686018427387904 → 0 ≤ off →
+      off + 4 + (x.length : Int) < 4611686018427387904 → lget ss i = .ok x →
+      L (f + 1) s ix off i =
+        (lset ix i off).bind fun ix' =>
+          (ustore32 s.buf off (wrap .u32 (llen x))).bind fun b1 =>
+            (scopyInto b1 (off + 4) (off + 4 + llen x) x).bind fun b2 =>
+              L f ⟨b2⟩ ix' (off + (4 + llen x)) (i + 1)) :
+    ∀ (fuel : Nat) (rest pre : List Bytes) (s : S_StrStore) (D : List Int) (P J : Bytes) (i off : Int),
+      ss = pre ++ rest → i = (pre.length : Int) → off = (P.length : Int) → s.buf.arr = P ++ J → J.length = packLen rest →
+      D.length = pre.length → rest.length < fuel → P.length + packLen rest < 4611686018427387904 →
+      ss.length < 4611686018427387904 →
+      L fuel s (D ++ List.replicate rest.length 0) off i =
+        .ok (⟨{ s.buf with arr := P ++ (SMap.packLoop rest P.length).1 }⟩,
+             D ++ (SMap.packLoop rest P.length).2, off + (packLen rest : Int), (ss.length : Int)) := by
+  intro fuel
+  induction fuel with
+  | zero => intro rest pre s D P J i off _ _ _ _ _ _ hf; omega
+  | succ fuel ih =>
+    intro rest pre s D P J i off hs hi ho hb hJ hD hf hbd hn
+    cases rest with
+    | nil =>
+      have : ¬ i < (ss.length : Int) := by rw [hs, hi]; simp
+      have e : (ss.length : Int) = i := by rw [hs, hi]; simp
+      have hJ0 : J = [] := by simpa [packLen] using hJ
+      rw [hge fuel s _ off i this]
+      have hP : s.buf.arr = P := by rw [hb, hJ0]; simp
+      have hsP : s = ⟨{ s.buf with arr := P }⟩ := by
+        cases s with
+        | mk buf => cases buf with
+          | mk a sp => simp at hP; simp [hP]
+      simp [SMap.packLoop, packLen, e]
+      exact hsP
+    | cons x rest =>
+      have hg := lget_append pre rest x ss i hs hi
+      have hlti : i < (ss.length : Int) := by rw [hs, hi]; simp; omega
+      simp only [packLen] at hbd hJ
+      rw [hlt fuel s _ off i x (by omega) hlti hn (by omega) (by omega) hg]
+      -- idxes[i] = offset
+      have hset : lset (D ++ List.replicate (x :: rest).length (0 : Int)) i off = .ok ((D ++ [off]) ++ List.replicate rest.length 0) := by
+        have c : ¬ (i < 0 ∨ i ≥ llen (D ++ List.replicate (x :: rest).length (0 : Int))) := by
+          unfold llen; simp; omega
+        have hit : i.toNat = D.length := by omega
+        have c' : 0 ≤ i ∧ i < llen (D ++ 0 :: List.replicate rest.length (0 : Int)) := by
+          unfold llen; simp; omega
+        simp [lset, hit, List.replicate_succ, c']
+      -- the length, then the bytes
+      have hst := ustore_at s.buf P J off (wrap .u32 (llen x)) hb ho (by omega)
+      have hcp := copy_at { s.buf with arr := P ++ GoSemSM.le32 (wrap .u32 (llen x)) ++ J.drop 4 }
+        (P ++ GoSemSM.le32 (wrap .u32 (llen x))) (J.drop 4) x (off + 4) (off + 4 + llen x) (by simp)
+        (by rw [le32_len]; simp [hdr_len]; omega) (by rw [le32_len]; simp [hdr_len, llen]; omega) (by simp; omega)
+      simp only [hset, hst, hcp, Out.bind_ok]
+      have hoff : off + (4 + llen x) = (((P ++ GoSemSM.le32 (wrap .u32 (llen x)) ++ x).length : Nat) : Int) := by
+        rw [le32_len]; simp [hdr_len, llen]; omega
+      rw [hoff, ih rest (pre ++ [x]) _ (D ++ [off]) (P ++ GoSemSM.le32 (wrap .u32 (llen x)) ++ x) ((J.drop 4).drop x.length)
+        (i + 1) _ (by simp [hs]) (by simp [hi]) rfl (by simp) (by simp; omega) (by simp [hD]) (by simp at hf; omega)
+        (by rw [le32_len]; simp [hdr_len]; omega) hn]
+      have hpl : (P ++ GoSemSM.le32 (wrap .u32 (llen x)) ++ x).length = P.length + Facts.strlenSize + x.length := by
+        rw [le32_len]; simp [hdr_len, Facts.strlenSize]; omega
+      simp only [SMap.packLoop, le32_len, ho]
+      simp [packLen, hdr_len]
+      have e4 : P.length + (4 + x.length) = P.length + Facts.strlenSize + x.length := by simp [Facts.strlenSize]; omega
+      rw [e4]
+      exact ⟨rfl, rfl, by omega⟩
+
+theorem lget_lt {l : List α} {i : Int} {x : α} (h : lget l i = .ok x) : 0 ≤ i ∧ i < (l.length : Int) := by
+  unfold lget at h
+  by_cases hi : i < 0
+  · simp [hi] at h
+  · simp only [hi, if_false] at h
+    cases hg : l[i.toNat]? with
+    | none => simp [hg] at h
+    | some y =>
+      have := (List.getElem?_eq_some_iff.mp hg).1
+      omega
+
+theorem packLen_eq : ∀ l : List Bytes, packLen l = 4 * l.length + totalLen l := by
+  intro l
+  induction l with
+  | nil => rfl
+  | cons x r ih => simp [packLen, totalLen, ih]; omega
+
+theorem abs_bind_congr {α β γ : Type} {A : GM β → γ} {x y : GM α} {K : α → GM β} {R : γ}
+    (hxy : x = y) (hk : A (y.bind K) = R) : A (x.bind K) = R := by
+  subst hxy; exact hk
+
+/-- outcome of `Load`: the indexes and the store afterwards -/
+def absLd : GM (S_StrStore × List Int × SErr) → Out SMap.LErr (List Int × SMap.StrStore)
+  | .ok (s, ix, .nil) => .ok (ix, absStore s)
+  | .ok (_, _, .new t) => .panic t
+  | .panic w => .panic w
+  | .oob => .oob
+  | .err e => nomatch e
+
+def ldOut (r : Out SMap.LErr (List Int) × SMap.StrStore) : Out SMap.LErr (List Int × SMap.StrStore) :=
+  match r.1 with
+  | .ok ix => .ok (ix, r.2)
+  | .panic w => .panic w
+  | .err e => .err e
+  | .oob => .oob
+
+set_option linter.unusedSimpArgs false in
+/-- `(*StrStore).Load` is the model's `storeLoad` — the "string too long" panic, the indexes, the packed buffer whatever
+    the previous buffer held — for every store, provided the packed size is below 2^62 and the fuel exceeds the number of
+    strings -/
+theorem StrStore_Load_eq (fuel : Nat) (s : S_StrStore) (ss : List Bytes) (hb : packLen ss < 4611686018427387904)
+    (hf : ss.length < fuel) : absLd (StrStore_Load fuel s ss) = ldOut (SMap.storeLoad (absStore s) ss) := by
+  have hpe := packLen_eq ss
+  have hn : ss.length < 4611686018427387904 := by omega
+  have hll : llen ss = ((ss.length : Nat) : Int) := rfl
+  have wt : wrap .i64 (4 * ((ss.length : Nat) : Int)) = ((4 * ss.length : Nat) : Int) := by
+    rw [wrap64 _ (by omega) (by omega)]; simp
+  have hl1 := fun L a b c => sl_loop1 ss L a b c fuel ss [] ((4 * ss.length : Nat) : Int) 0 (by simp) (by simp) hf
+    (by omega) (by omega) hn
+  have hmk0 : lmake (0 : Int) ((ss.length : Nat) : Int) ((ss.length : Nat) : Int) = .ok (List.replicate ss.length 0) := by
+    have : ¬ (((ss.length : Nat) : Int) < 0) := by omega
+    simp [lmake, this]
+  unfold SMap.storeLoad
+  simp only [StrStore_Load, hll, wt, Out.bind_eq]
+  refine abs_bind_congr (hl1 _ ?_ ?_ ?_) ?_
+  · intro f t i hc
+    simp [StrStore_Load_loop1, hc]
+  · intro f t i x hg hx
+    have hlt := (lget_lt hg).2
+    have : llen x > 4294967295 := by unfold llen; unfold SMap.maxU32 at hx; omega
+    simp [StrStore_Load_loop1, hlt, hg, this]
+  · intro f t i x hlt hg hx
+    have : ¬ llen x > 4294967295 := by unfold llen; unfold SMap.maxU32 at hx; omega
+    simp [StrStore_Load_loop1, hlt, hg, this]
+  · by_cases hany : (ss.any fun x => decide (x.length > SMap.maxU32)) = true
+    · simp [hany, absLd, ldOut]
+    · have hT : ((4 * ss.length : Nat) : Int) + ((totalLen ss : Nat) : Int) = ((packLen ss : Nat) : Int) := by omega
+      simp only [hany, if_false, Bool.false_eq_true, Out.bind_ok, hmk0, hT]
+      have hl2 := fun L a b bufA J hbuf hJ => sl_loop2 ss L a b fuel ss [] ⟨bufA⟩ [] [] J 0 0 (by simp) (by simp) (by simp)
+        hbuf hJ (by simp) hf (by simpa using hb) hn
+      simp only [List.nil_append, List.length_nil] at hl2
+      split
+      · -- a fresh buffer
+        have hmk : smake (0 : UInt8) ((packLen ss : Nat) : Int) ((packLen ss : Nat) : Int) =
+            .ok ⟨List.replicate (packLen ss) 0, []⟩ := by
+          have : ¬ (((packLen ss : Nat) : Int) < 0) := by omega
+          simp [smake, this]
+        simp only [hmk, Out.bind_ok, Out.pure_eq]
+        refine abs_bind_congr (hl2 _ ?_ ?_ _ (List.replicate (packLen ss) 0) rfl (by simp)) ?_
+        · intro f s ix off i hc
+          simp [StrStore_Load_loop2, hc]
+        · intro f s ix off i x h0 hlt hnn ho hbb hg
+          have w1 : wrap .i64 (off + 4) = off + 4 := wrap64 _ (by omega) (by omega)
+          have w2 : wrap .i64 (off + 4 + llen x) = off + 4 + llen x := by unfold llen; exact wrap64 _ (by omega) (by omega)
+          have w3 : wrap .i64 (4 + llen x) = 4 + llen x := by unfold llen; exact wrap64 _ (by omega) (by omega)
+          have w4 : wrap .i64 (off + (4 + llen x)) = off + (4 + llen x) := by unfold llen; exact wrap64 _ (by omega) (by omega)
+          have w5 : wrap .i64 (i + 1) = i + 1 := wrap64 _ (by omega) (by omega)
+          simp only [StrStore_Load_loop2, hlt, decide_true, if_true, hg, Out.bind_eq, Out.bind_ok, w1, w2, w3, w4, w5]
+        · simp [absLd, ldOut, absStore, hany]
+      · -- the old buffer re-sliced
+        rename_i hc
+        have hc' : ¬ scap s.buf < ((packLen ss : Nat) : Int) := by simpa using hc
+        have c1 : ¬ (((packLen ss : Nat) : Int) < 0 ∨ ((packLen ss : Nat) : Int) > scap s.buf) := by omega
+        have c2 : ¬ ((0 : Int) < 0 ∨ (0 : Int) > ((packLen ss : Nat) : Int)) := by omega
+        have hsl : sslice s.buf 0 ((packLen ss : Nat) : Int) =
+            .ok ⟨s.buf.mem.take (packLen ss), s.buf.mem.drop (packLen ss)⟩ := by
+          simp [sslice, c1, c2]
+        have hlen : (s.buf.mem.take (packLen ss)).length = packLen ss := by
+          unfold scap at hc'
+          simp [Sl.mem]; omega
+        simp only [hsl, Out.bind_ok, Out.pure_eq]
+        refine abs_bind_congr (hl2 _ ?_ ?_ _ (s.buf.mem.take (packLen ss)) rfl hlen) ?_
+        · intro f s ix off i hc
+          simp [StrStore_Load_loop2, hc]
+        · intro f s ix off i x h0 hlt hnn ho hbb hg
+          have w1 : wrap .i64 (off + 4) = off + 4 := wrap64 _ (by omega) (by omega)
+          have w2 : wrap .i64 (off + 4 + llen x) = off + 4 + llen x := by unfold llen; exact wrap64 _ (by omega) (by omega)
+          have w3 : wrap .i64 (4 + llen x) = 4 + llen x := by unfold llen; exact wrap64 _ (by omega) (by omega)
+          have w4 : wrap .i64 (off + (4 + llen x)) = off + (4 + llen x) := by unfold llen; exact wrap64 _ (by omega) (by omega)
+          have w5 : wrap .i64 (i + 1) = i + 1 := wrap64 _ (by omega) (by omega)
+          simp only [StrStore_Load_loop2, hlt, decide_true, if_true, hg, Out.bind_eq, Out.bind_ok, w1, w2, w3, w4, w5]
+        · simp [absLd, ldOut, absStore, hany]
+
+/-! ## Str2Str: Len, Get -/
+
+def absS2S (sm : S_Str2Str) : SMap.Str2Str := ⟨sm.strMap.map absMap, sm.strStore.map absStore⟩
+
+theorem Str2Str_Len_eq (sm : S_Str2Str) : liftG Int.toNat (Str2Str_Len sm) = SMap.s2sLen (absS2S sm) := by
+  cases hm : sm.strMap with
+  | none => simp [Str2Str_Len, SMap.s2sLen, absS2S, hm, derefP, liftG]
+  | some m => simp [Str2Str_Len, SMap.s2sLen, absS2S, hm, derefP, liftG, Len_eq]
+
+/-- Go's `(string, ok)` as the model's `Option` -/
+def optOfB (r : Bytes × Bool) : Option Bytes := if r.2 then some r.1 else none
+
+/-- `(*Str2Str).Get` is the model's `s2sGet` (nil components panic "nil"), given the invariants of its parts -/
+theorem Str2Str_Get_eq (h : Bytes → Nat) (fuel : Nat) (sm : S_Str2Str) (k : Bytes)
+    (hM : ∀ m, sm.strMap = some m → Inv m ∧ m.items.arr.length < fuel)
+    (hS : ∀ st, sm.strStore = some st → scap st.buf < 4611686018427387904 ∧ ∀ idx, EntryOK st idx) :
+    liftG optOfB (Str2Str_Get h fuel sm k) = SMap.s2sGet h (absS2S sm) k := by
+  cases hm : sm.strMap with
+  | none => simp [Str2Str_Get, SMap.s2sGet, absS2S, hm, derefP, liftG]
+  | some m =>
+    obtain ⟨hI, hf⟩ := hM m hm
+    have hg := Get_eq (0 : Int) h fuel m hI hf k
+    have hsm : (absS2S sm).strMap = some (absMap m) := by simp [absS2S, hm]
+    simp only [SMap.s2sGet, hsm, ← hg]
+    cases hr : StrMap_Get (0 : Int) h fuel m k with
+    | ok r =>
+      obtain ⟨v, b⟩ := r
+      cases b with
+      | false => simp [Str2Str_Get, hm, derefP, hr, liftG, optOf, optOfB]
+      | true =>
+        cases hs : sm.strStore with
+        | none => simp [Str2Str_Get, hm, derefP, hr, liftG, optOf, absS2S, hs]
+        | some st =>
+          obtain ⟨hc, he⟩ := hS st hs
+          have hsg := StrStore_Get_eq st v hc (he v)
+          have hss : (absS2S sm).strStore = some (absStore st) := by simp [absS2S, hs]
+          simp only [liftG, optOf, if_true, hss, ← hsg]
+          cases hq : StrStore_Get st v with
+          | ok x => simp [Str2Str_Get, hm, derefP, hr, hs, hq, liftG, optOfB]
+          | panic w => simp [Str2Str_Get, hm, derefP, hr, hs, hq, liftG]
+          | oob => simp [Str2Str_Get, hm, derefP, hr, hs, hq, liftG]
+          | err x => exact nomatch x
+    | panic w => simp [Str2Str_Get, hm, derefP, hr, liftG]
+    | oob => simp [Str2Str_Get, hm, derefP, hr, liftG]
+    | err x => exact nomatch x
+
+/-! ## Str2Str: LoadFromSlice -/
+
+/-- outcome of `Str2Str.LoadFromSlice`: the loaded object, or the model's error for the returned Go error -/
+def absS2SLoad : GM (S_Str2Str × SErr) → Out SMap.LErr SMap.Str2Str
+  | .ok (sm, .nil) => .ok (absS2S sm)
+  | .ok (_, .new t) => errOf (.new t)
+  | .panic w => .panic w
+  | .oob => .oob
+  | .err e => nomatch e
+
+theorem ldOut_ok {R : Out SMap.LErr (List Int) × SMap.StrStore} {ix s} (h : ldOut R = .ok (ix, s)) :
+    R.1 = .ok ix ∧ R.2 = s := by
+  obtain ⟨a, b⟩ := R
+  cases a <;> simp [ldOut] at h ⊢
+  exact h
+theorem ldOut_panic {R : Out SMap.LErr (List Int) × SMap.StrStore} {w} (h : ldOut R = .panic w) : R.1 = .panic w := by
+  obtain ⟨a, b⟩ := R
+  cases a <;> simp [ldOut] at h ⊢
+  exact h
+theorem ldOut_oob {R : Out SMap.LErr (List Int) × SMap.StrStore} (h : ldOut R = .oob) : R.1 = .oob := by
+  obtain ⟨a, b⟩ := R
+  cases a <;> simp [ldOut] at h ⊢
+
+theorem outOf_ok {σ : Type} {R : Out SMap.LErr Unit × σ} {s} (h : outOf R = .ok s) : R.1 = .ok () ∧ R.2 = s := by
+  obtain ⟨a, b⟩ := R
+  cases a <;> simp [outOf] at h ⊢
+  exact h
+theorem outOf_panic {σ : Type} {R : Out SMap.LErr Unit × σ} {w} (h : outOf R = .panic w) : R.1 = .panic w := by
+  obtain ⟨a, b⟩ := R
+  cases a <;> simp [outOf] at h ⊢
+  exact h
+theorem outOf_oob {σ : Type} {R : Out SMap.LErr Unit × σ} (h : outOf R = .oob) : R.1 = .oob := by
+  obtain ⟨a, b⟩ := R
+  cases a <;> simp [outOf] at h ⊢
+
+/-- the outcome of a model call does not depend on the state paired with it, except in the normal return -/
+theorem errOf_transfer {σ1 σ2 : Type} (t : String) (a : Out SMap.LErr Unit) (s1 : σ1) (s2 : σ2)
+    (h : (errOf (.new t) : Out SMap.LErr σ1) = outOf (a, s1)) : outOf (a, s2) = (errOf (.new t) : Out SMap.LErr σ2) := by
+  unfold errOf at h ⊢
+  simp only at h ⊢
+  by_cases h1 : t = SMap.LErr.kvLen.msg
+  · simp only [h1, if_true] at h ⊢
+    cases a <;> simp_all [outOf]
+  · by_cases h2 : t = SMap.LErr.keyTooLarge.msg
+    · simp only [h1, h2, if_true, if_false] at h ⊢
+      cases a <;> simp_all [outOf]
+    · simp only [h1, h2, if_false] at h ⊢
+      cases a <;> simp_all [outOf]
+
+theorem storeLoad_panic (st : SMap.StrStore) (ss : List Bytes) (t : String)
+    (h : (SMap.storeLoad st ss).1 = .panic t) : t = "string too long" := by
+  unfold SMap.storeLoad at h
+  split at h <;> simp at h
+  exact h.symm
+
+/-- the key-size loop of `Str2Str.LoadFromSlice`: for ANY function `L` with these steps -/
+theorem s2s_loop1 (sm : S_Str2Str) (L : List Bytes → GM (LoopR (S_Str2Str × SErr) Unit))
+    (hnil : L [] = .ok (.done ()))
+    (hbig : ∀ k rest, k.length > SMap.maxU32 → L (k :: rest) = .ok (.ret (sm, SErr.new "key too large")))
+    (hsmall : ∀ k rest, ¬ k.length > SMap.maxU32 → L (k :: rest) = L rest) :
+    ∀ kk, L kk = if SMap.anyKeyTooLarge kk then .ok (.ret (sm, SErr.new "key too large")) else .ok (.done ()) := by
+  intro kk
+  induction kk with
+  | nil => simp [hnil, SMap.anyKeyTooLarge]
+  | cons k rest ih =>
+    by_cases hk : k.length > SMap.maxU32
+    · simp [hbig k rest hk, SMap.anyKeyTooLarge, hk]
+    · have : SMap.anyKeyTooLarge (k :: rest) = SMap.anyKeyTooLarge rest := by simp [SMap.anyKeyTooLarge, hk]
+      rw [hsmall k rest hk, ih, this]
+
+set_option linter.unusedSimpArgs false in
+/-- `(*Str2Str).LoadFromSlice` is the model's `s2sLoad` — both error returns, nil components replaced by fresh ones,
+    the "string too long" panic of the store, the store loaded before the map — for EVERY receiver state -/
+theorem Str2Str_LoadFromSlice_eq (h : Bytes → Nat) (sorter : List (SMap.Item Int) → List (SMap.Item Int)) (fuel : Nat)
+    (sm : S_Str2Str) (kk vv : List Bytes) (hb1 : totalLen kk < 4611686018427387904)
+    (hb2 : packLen vv < 4611686018427387904) (hf1 : vv.length < fuel)
+    (hf2 : ∀ p, SMap.calcSlots kk.length = .ok p → p < fuel) :
+    absS2SLoad (Str2Str_LoadFromSlice h (liftSorter sorter) fuel sm kk vv) =
+      outOf (SMap.s2sLoad h sorter (absS2S sm) kk vv) := by
+  by_cases hne : kk.length ≠ vv.length
+  · have hlen' : ¬ llen kk = llen vv := by unfold llen; omega
+    simp [Str2Str_LoadFromSlice, SMap.s2sLoad, hne, hlen', absS2SLoad, errOf, outOf, SMap.LErr.msg]
+  have hlen : kk.length = vv.length := by omega
+  have hlen' : llen kk = llen vv := by unfold llen; omega
+  have hl1 := fun L a b c => s2s_loop1 sm L a b c kk
+  simp only [Str2Str_LoadFromSlice, hlen', ne_eq, not_true_eq_false, decide_false, if_false, Bool.false_eq_true,
+    Out.bind_eq]
+  refine abs_bind_congr (hl1 _ ?_ ?_ ?_) ?_
+  · simp [Str2Str_LoadFromSlice_loop1]
+  · intro k rest hk
+    have : llen k > 4294967295 := by unfold llen; unfold SMap.maxU32 at hk; omega
+    simp [Str2Str_LoadFromSlice_loop1, this]
+  · intro k rest hk
+    have : ¬ llen k > 4294967295 := by unfold llen; unfold SMap.maxU32 at hk; omega
+    simp [Str2Str_LoadFromSlice_loop1, this]
+  by_cases hbig : SMap.anyKeyTooLarge kk = true
+  · simp [SMap.s2sLoad, hlen, hbig, absS2SLoad, errOf, outOf, SMap.LErr.msg]
+  -- the store and the map that get loaded (fresh ones for nil components)
+  obtain ⟨st, hstA, hst⟩ : ∃ st : S_StrStore, absStore st = SMap.storeOrNew (absS2S sm).strStore ∧
+      (sm.strStore = some st ∨ (sm.strStore = none ∧ st = ⟨Sl.nil⟩)) := by
+    cases hs : sm.strStore with
+    | none => exact ⟨⟨Sl.nil⟩, by simp [absS2S, hs, SMap.storeOrNew, absStore, SMap.StrStore.init, Sl.nil], Or.inr ⟨rfl, rfl⟩⟩
+    | some st => exact ⟨st, by simp [absS2S, hs, SMap.storeOrNew], Or.inl rfl⟩
+  obtain ⟨mp, hmpA, hmp⟩ : ∃ mp : S_StrMap Int, absMap mp = SMap.mapOrNew (absS2S sm).strMap ∧
+      (sm.strMap = some mp ∨ (sm.strMap = none ∧ mp = ⟨Sl.nil, Sl.nil, Sl.nil⟩)) := by
+    cases hm : sm.strMap with
+    | none => exact ⟨⟨Sl.nil, Sl.nil, Sl.nil⟩, by simp [absS2S, hm, SMap.mapOrNew, absMap, SMap.StrMap.init, Sl.nil], Or.inr ⟨rfl, rfl⟩⟩
+    | some mp => exact ⟨mp, by simp [absS2S, hm, SMap.mapOrNew], Or.inl rfl⟩
+  have hL := StrStore_Load_eq fuel st vv hb2 hf1
+  rw [hstA] at hL
+  have hixlen : ∀ ix, (SMap.storeLoad (SMap.storeOrNew (absS2S sm).strStore) vv).1 = .ok ix → ix.length = vv.length := by
+    intro ix hR1
+    have : ix = (SMap.packLoop vv 0).2 := by
+      unfold SMap.storeLoad at hR1
+      split at hR1 <;> simp at hR1
+      exact hR1.symm
+    have hpl : ∀ (l : List Bytes) (off : Nat), (SMap.packLoop l off).2.length = l.length := by
+      intro l
+      induction l with
+      | nil => intro off; simp [SMap.packLoop]
+      | cons x r ih => intro off; simp [SMap.packLoop, ih]
+    rw [this, hpl]
+  have hpanic := storeLoad_panic (SMap.storeOrNew (absS2S sm).strStore) vv
+  have hF := fun ix => LoadFromSlice_eq (0 : Int) h sorter fuel mp kk ix hb1 hf2
+  rw [hmpA] at hF
+  -- the model side, with its sub-computations as atoms
+  unfold SMap.s2sLoad
+  simp only [hlen, ne_eq, not_true_eq_false, if_false, hbig, Bool.false_eq_true]
+  generalize SMap.storeLoad (SMap.storeOrNew (absS2S sm).strStore) vv = R at hL hixlen hpanic ⊢
+  generalize SMap.mapOrNew (absS2S sm).strMap = MP at hF ⊢
+  generalize (absS2S sm).strMap = SMm
+  -- outcome of the store's Load
+  cases hr : StrStore_Load fuel st vv with
+  | err x => exact nomatch x
+  | panic w =>
+    rw [hr] at hL
+    have hR := ldOut_panic hL.symm
+    rcases hst with hs | ⟨hs, rfl⟩ <;> simp [hs, derefP, hr, absS2SLoad, hR, outOf]
+  | oob =>
+    rw [hr] at hL
+    have hR := ldOut_oob hL.symm
+    rcases hst with hs | ⟨hs, rfl⟩ <;> simp [hs, derefP, hr, absS2SLoad, hR, outOf]
+  | ok r4 =>
+    obtain ⟨s', ix, e⟩ := r4
+    rw [hr] at hL
+    cases e with
+    | new t =>
+      have hR := ldOut_panic (w := t) (by simpa [absLd] using hL.symm)
+      have ht := hpanic _ hR
+      subst ht
+      rcases hst with hs | ⟨hs, rfl⟩ <;>
+        simp [hs, derefP, hr, absS2SLoad, hR, outOf, errOf, SMap.LErr.msg]
+    | nil =>
+      obtain ⟨hR1, hR2⟩ := ldOut_ok (ix := ix) (s := absStore s') (by simpa [absLd] using hL.symm)
+      have hF' := hF ix
+      simp only [hR1, hR2]
+      generalize SMap.loadFromSlice h sorter MP kk ix = X at hF' ⊢
+      -- outcome of the map's LoadFromSlice
+      cases hr7 : StrMap_LoadFromSlice (0 : Int) h (liftSorter sorter) fuel mp kk ix with
+      | err x => exact nomatch x
+      | panic w =>
+        rw [hr7] at hF'
+        have hP := outOf_panic (w := w) (by simpa [absLoad] using hF'.symm)
+        rcases hst with hs | ⟨hs, rfl⟩ <;> rcases hmp with hm | ⟨hm, rfl⟩ <;>
+          simp [hs, hm, derefP, hr, hr7, absS2SLoad, outOf, hP]
+      | oob =>
+        rw [hr7] at hF'
+        have hP := outOf_oob (by simpa [absLoad] using hF'.symm)
+        rcases hst with hs | ⟨hs, rfl⟩ <;> rcases hmp with hm | ⟨hm, rfl⟩ <;>
+          simp [hs, hm, derefP, hr, hr7, absS2SLoad, outOf, hP]
+      | ok r7 =>
+        obtain ⟨m', e7⟩ := r7
+        rw [hr7] at hF'
+        cases e7 with
+        | nil =>
+          obtain ⟨hP1, hP2⟩ := outOf_ok (s := absMap m') (by simpa [absLoad] using hF'.symm)
+          rcases hst with hs | ⟨hs, rfl⟩ <;> rcases hmp with hm | ⟨hm, rfl⟩ <;>
+            simp [hs, hm, derefP, hr, hr7, absS2SLoad, outOf, hP1, hP2, absS2S]
+        | new t =>
+          have hT := errOf_transfer t X.1 X.2 (⟨some X.2, some (absStore s')⟩ : SMap.Str2Str)
+            (by have := hF'; simp only [absLoad] at this; exact this)
+          rcases hst with hs | ⟨hs, rfl⟩ <;> rcases hmp with hm | ⟨hm, rfl⟩ <;>
+            simp [hs, hm, derefP, hr, hr7, absS2SLoad, hT]
 
 /-! ## closed examples: the GENERATED LoadFromSlice / Get / Item / Len run on a map all of whose keys collide -/
 
@@ -938,5 +1543,35 @@ example : StrMap_Get 0 exHash 64 exEmpty [97] = .ok (0, false) := by decide +ker
 /-- mismatched lengths: the error, the map untouched -/
 example : ((StrMap_LoadFromSlice 0 exHash isortBySlot 64 exEmpty exKeys [1]).bind fun r => pure r.2)
     = .ok (SErr.new "kv len not match") := by decide +kernel
+
+/-! ### the GENERATED Str2Str (store + map) on the zero value, with colliding keys -/
+
+def insBySlotI (x : S_mapItem Int) : List (S_mapItem Int) → List (S_mapItem Int)
+  | [] => [x]
+  | y :: r => if x.slot ≤ y.slot then x :: y :: r else y :: insBySlotI x r
+def isortBySlotI : List (S_mapItem Int) → List (S_mapItem Int)
+  | [] => []
+  | x :: r => insBySlotI x (isortBySlotI r)
+
+def exVals2 : List Bytes := [[1, 2, 3], [], [9], [7, 7]]
+/-- the zero value `Str2Str{}`: both components nil -/
+def exZero : S_Str2Str := ⟨none, none⟩
+
+def exLoad2 : GM S_Str2Str :=
+  (Str2Str_LoadFromSlice exHash isortBySlotI 64 exZero exKeys exVals2).bind fun r =>
+    if r.2 = SErr.nil then .ok r.1 else .panic "load failed"
+
+example : (exLoad2.bind fun sm => Str2Str_Get exHash 64 sm [98, 99]) = .ok ([], true) := by decide +kernel
+example : (exLoad2.bind fun sm => Str2Str_Get exHash 64 sm [100, 101, 102]) = .ok ([7, 7], true) := by decide +kernel
+example : (exLoad2.bind fun sm => Str2Str_Get exHash 64 sm [97]) = .ok ([1, 2, 3], true) := by decide +kernel
+example : (exLoad2.bind fun sm => Str2Str_Get exHash 64 sm [5]) = .ok ([], false) := by decide +kernel
+example : (exLoad2.bind fun sm => Str2Str_Len sm) = .ok 4 := by decide +kernel
+/-- `Get` on the zero value panics (nil strMap) -/
+example : Str2Str_Get exHash 64 exZero [97] = .panic "nil" := by decide +kernel
+/-- the store: indexes 0, 7, 11, 16 and an unsafe load at the last byte is `oob` -/
+example : ((StrStore_Load 64 ⟨Sl.nil⟩ exVals2).bind fun r => pure r.2.1) = .ok [0, 7, 11, 16] := by decide +kernel
+example : ((StrStore_Load 64 ⟨Sl.nil⟩ exVals2).bind fun r => StrStore_Get r.1 21) = .oob := by decide +kernel
+example : ((StrStore_Load 64 ⟨Sl.nil⟩ exVals2).bind fun r => StrStore_Get r.1 16) = .ok [7, 7] := by decide +kernel
+example : ((StrStore_Load 64 ⟨Sl.nil⟩ exVals2).bind fun r => StrStore_Get r.1 22) = .ok [] := by decide +kernel
 
 end Verif.StrMapEq
